@@ -593,7 +593,8 @@ impl Dominance for ModelDominance<'_> {
     // a dominance relation may legitimately use isize::MAX / isize::MIN as "unbounded" (differences of coordinates overflow)
     fn get_coordinate(&self, s: &St, i: usize) -> isize {
         match self.0.family {
-            Family::Knapsack => (s.x as isize - 13) * (isize::MAX / 16),
+            // strictly increasing in the capacity, whatever its size: 0 -> isize::MIN, c >= 1 -> isize::MAX - 1_000_000 + c
+            Family::Knapsack => if s.x == 0 { isize::MIN } else { isize::MAX - 1_000_000 + s.x as isize },
             _ => if s.x >> i & 1 == 1 { isize::MAX } else { isize::MIN },
         }
     }
